@@ -52,8 +52,8 @@ type synthFont struct {
 }
 
 var synthFonts = []synthFont{
-	{"f1", map[string]int{" ": 1, "a": 1, "b": 2, "c": 3, "é": 2, "{P}": 4, "{C R}": 0, "default": 2}}, // an explicit zero width next to a non-zero default
-	{"f2", map[string]int{" ": 3, "a": 2, "b": 1, "c": 1}},                                             // no default: unknown glyphs and codes are 0 wide
+	{"f1", map[string]int{" ": 1, "a": 1, "b": 2, "c": 3, "é": 2, "{P}": 4, "{C R}": 0, "{C}": 5, "{": 3, "C": 6, "default": 2}}, // an explicit zero width next to a non-zero default; the table also has entries for the bare code {C} and for single characters of the code {C R}: a code is looked up as a whole
+	{"f2", map[string]int{" ": 3, "a": 2, "b": 1, "c": 1}},                                                                       // no default: unknown glyphs and codes are 0 wide
 }
 
 func (f synthFont) w(g string) int {
